@@ -2,5 +2,5 @@
 
 package edns
 
-// VerifC01NoAD exposes the writer's AD discipline flag (accessor only).
+// VerifC01NoAD reads the writer's AD-discipline flag (accessor only).
 func VerifC01NoAD(w *ResponseWriter) bool { return w.noad }
